@@ -1,3 +1,68 @@
+(* C10 — Refcounted caches finalise each value exactly once and never while it is held.
+   Statements only; every proof is [exact <lemma of Proofs/Refcache.v>]. *)
+From Coq Require Import List Arith ZArith Bool.
 From SV Require Import Model.Refcache Proofs.Refcache.
-Theorem C10_placeholder : True. Proof. exact I. Qed.
-Print Assumptions C10_placeholder.
+Import ListNotations.
+
+(* Every reachable state (any capacity, any history of Add/Get/Remove/Expire/Release incl. repeated and
+   evicting releases, timers firing anywhere): for every value ever added, the eviction callback has run at
+   most once, and it has run exactly when the value has left the cache AND no holder still holds it. *)
+Theorem C10_exactly_once :
+  forall (c : nat) (os : list op) (i : nat) (e : ent),
+    let s := exec (init c) os in
+    nth_error (ents s) i = Some e ->
+    callbacks s i <= 1 /\ (callbacks s i = 1 <-> (~ in_cache s i /\ live s i = 0)).
+Proof. intros c os i e s H. exact (exactly_once_inv s i e (reach_inv c os) H). Qed.
+Print Assumptions C10_exactly_once.
+
+(* A holder never sees its value finalised under it; a cached value is never finalised. *)
+Theorem C10_never_while_held :
+  forall c os i, let s := exec (init c) os in
+    (0 < live s i -> callbacks s i = 0) /\ (in_cache s i -> callbacks s i = 0).
+Proof. intros c os i s. split; [exact (held_not_finalized s i (reach_inv c os))|exact (cached_not_finalized s i (reach_inv c os))]. Qed.
+Print Assumptions C10_never_while_held.
+
+(* The OnEvicted calls reported op by op (what the implementation is compared on) are exactly the
+   callback history the two theorems above speak about. *)
+Theorem C10_outputs_are_callbacks :
+  forall c os, fst (run (init c) os) = exec (init c) os
+            /\ log (exec (init c) os) = concat (map snd (snd (run (init c) os))).
+Proof. intros c os. split; [exact (run_exec os (init c))|exact (run_outputs os (init c))]. Qed.
+Print Assumptions C10_outputs_are_callbacks.
+
+(* Releasing twice is harmless: a second, non-evicting release of the same handle changes nothing
+   (whatever the first release was; no invariant needed). *)
+Theorem C10_double_release_harmless :
+  forall s h ev, fst (step (fst (step s (Release h ev))) (Release h false)) = fst (step s (Release h ev)).
+Proof. exact double_release. Qed.
+Print Assumptions C10_double_release_harmless.
+
+(* Adding an existing key returns the cached value (added = false), runs no callback, allocates nothing
+   and leaves cache membership unchanged. *)
+Theorem C10_add_existing_returns_cached :
+  forall c os k i, let s := exec (init c) os in
+    lru_find (lru s) k = Some i ->
+    snd (step s (Add k)) = Some (i, false)
+    /\ log (fst (step s (Add k))) = log s
+    /\ length (ents (fst (step s (Add k)))) = length (ents s)
+    /\ lru_find (lru (fst (step s (Add k)))) k = Some i
+    /\ (forall k' j, In (k', j) (lru (fst (step s (Add k)))) <-> In (k', j) (lru s)).
+Proof. intros c os k i s H. exact (add_existing s k i (reach_inv c os) H). Qed.
+Print Assumptions C10_add_existing_returns_cached.
+
+(* Re-adding a key while an older value of it is still held: the evicting release of the old value
+   (which already left the cache) does not remove the new one. *)
+Theorem C10_readd_while_old_held :
+  forall c os h i r e, let s := exec (init c) os in
+    nth_error (hs s) h = Some (i, r) -> nth_error (ents s) i = Some e -> e_fin e = true ->
+    lru (fst (step s (Release h true))) = lru s.
+Proof. intros c os h i r e s. exact (release_old_keeps_cache s h i r e (reach_inv c os)). Qed.
+Print Assumptions C10_readd_while_old_held.
+
+(* Non-vacuity: a TTL history where value 0 is expired while held, key 0 re-added as value 1, the old holder
+   releases with evict: value 0 finalised exactly once, value 1 still cached and held, not finalised. *)
+Example C10_nonvacuous :
+  let s := exec (init 0) [Add 0; Expire 0; Add 0; Release 0 true] in
+  callbacks s 0 = 1 /\ callbacks s 1 = 0 /\ live s 1 = 1 /\ lru_find (lru s) 0 = Some 1
+  /\ (exists e, nth_error (ents s) 0 = Some e /\ e_fin e = true).
+Proof. vm_compute. repeat split. eexists. split; reflexivity. Qed.
